@@ -6,7 +6,7 @@
    accessors, ART1/ART2-A/Hypersphere rule shapes.  Statements only. *)
 From Coq Require Import List Bool Arith Reals Lra.
 From Coq Require Import QArith Qreals.
-From ART Require Import Num NumR Vec Search Kernel Fuzzy Fuzzy_R ART2A ART1 ART1_R Hyper Hyper_R Kern_R Transfer.
+From ART Require Import Num NumR Vec Search Kernel Fuzzy Fuzzy_R ART2A ART1 ART1_R ART1_new Hyper Hyper_R Kern_R Transfer.
 Import ListNotations.
 Open Scope R_scope.
 
@@ -74,6 +74,19 @@ Theorem C03_executed_fold_is_the_real_fold : forall (beta : Q) (members : list (
   map Q2R (fold_left (fun w x => @fuzzy_update QN beta x w) members w0) =
   fold_left (fun w x => @fuzzy_update RN (Q2R beta) x w) (map (map Q2R) members) (map Q2R w0).
 Proof. exact fuzzy_fold_QR. Qed.
+(* ART1: a freshly committed category has bottom-up = L/(L-1+|t|) t like an updated one: presenting the founding
+   pattern again leaves the weight unchanged (true since the /repo fix of ART1.new_weight; the former divisor
+   L-1+dim is refuted below) *)
+Theorem C03_art1_new_weight_obeys_the_bottom_up_rule :
+  forall (L : R) (x w : list R),
+    @art1_valid RN x = true -> @art1_new RN L x = Some w -> @art1_update RN L x w = Some w.
+Proof. exact art1_new_is_a_fixed_point. Qed.
+Theorem C03_art1_new_weight_before_fix_refuted :
+  exists (L : QN) (x w w' : list QN),
+    @art1_valid QN x = true /\ @art1_new_before_fix QN L x = Some w /\ @art1_update QN L x w = Some w' /\
+    nth 0 w 0%Q = (2#5)%Q /\ nth 0 w' 0%Q = 1%Q.
+Proof. exact art1_new_before_fix_refuted. Qed.
+Print Assumptions C03_art1_new_weight_obeys_the_bottom_up_rule.
 Print Assumptions C03_operator_table.
 Print Assumptions C03_executed_fold_is_the_real_fold.
 Print Assumptions C03_shrink_contained.
